@@ -9,6 +9,7 @@ import (
 	_ "go.amzn.com/verifh/c05"
 	_ "go.amzn.com/verifh/c06"
 	_ "go.amzn.com/verifh/c08"
+	_ "go.amzn.com/verifh/c09"
 	_ "go.amzn.com/verifh/c10"
 	_ "go.amzn.com/verifh/c11"
 	_ "go.amzn.com/verifh/c14"
